@@ -262,6 +262,11 @@ def templates():
         add('stack-3d-rotated2-cube-%s' % align, 'stack_case', cost=3, specs=[[['x', 'y', 'z'], [2, 2, 2]], [['z', 'x', 'y'], [2, 2, 2]]], align=align, share=['x', 'y', 'z'])
         add('stack-3d-rotated-%s' % align, 'stack_case', cost=3, specs=[[['x', 'y', 'z'], [2, 3, 1]], [['y', 'z', 'x'], [3, 1, 2]]], align=align, share=['x', 'y', 'z'])
         add('concat-3d-rotated-%s' % align, 'concat_case', cost=3, specs=[[['x', 'y', 'z'], [2, 2, 2]], [['y', 'z', 'x'], [2, 2, 2]]], axis=0, align=align, share=['x', 'y', 'z'])
+    # only the secondary (non-concatenation) dimensions are listed in another order; square shapes
+    for align in (False, True):
+        add('concat-3d-swapped-secondary-%s' % align, 'concat_case', cost=3, specs=[[['z', 'x', 'y'], [2, 2, 2]], [['z', 'y', 'x'], [2, 2, 2]]], axis=0, align=align, share=['x', 'y'])
+        add('concat-3d-swapped-secondary-mid-%s' % align, 'concat_case', cost=3, specs=[[['x', 'z', 'y'], [2, 2, 2]], [['y', 'z', 'x'], [2, 2, 2]]], axis=1, align=align, share=['x', 'y'], by='pos')
+        add('concat-3d-swapped-secondary-byname-%s' % align, 'concat_case', cost=3, specs=[[['x', 'z', 'y'], [2, 1, 2]], [['y', 'x', 'z'], [2, 2, 2]]], axis=1, align=align, share=['x', 'y'])
     # an int-labelled secondary axis meets float labels under align=True
     add('stack-mixed-kinds-align', 'stack_case', cost=3, specs=[[[X], [2]], [[X], [2]]], align=True, kinds={'0:x': 'i', '1:x': 'f'})
     add('concat-mixed-kinds-align', 'concat_case', cost=4, specs=[[[Y, X], [1, 2]], [[Y, X], [2, 2]]], axis=0, align=True, kinds={'0:x': 'i', '1:x': 'f'})
